@@ -59,8 +59,8 @@ func init() {
 			Rule:        "documents of the three wire languages (scalars with multi-byte tokens in containers, trees, JSON strings/numbers/whitespace/structure; valid ones and their single-edit invalid neighbours) x chunk schedules (every subset of cut positions for short documents, deviation-bounded cut sets for longer ones, all-single-bytes, strides 2-8, an empty write at every position) x entry points {Write sequence on a fresh parser, Write sequence on a parser that already parsed a document, ParseReader over a reader returning exactly the chosen chunks, with io.EOF separately or together with the last chunk}; every schedule is executed on the real parser and compared with the whole-buffer parse; a case = (document, schedule, entry point); non-trivial = the schedule has at least one cut inside the document",
 			Assumptions: []string{"documents longer than the exhaustive-cut bound are explored with a bounded number of cuts (reported as dev_bound)", "direct Write sequences have no public end-of-input: their events must be a prefix of the whole-buffer events lacking at most what end-of-input adds (a trailing JSON number)"},
 			Families: func(tier string) []engine.Family {
-				sc := docScope{Nodes: 3, UBJTypes: tierPick(tier, 4, 10), JSONTok: tierPick(tier, 3, 4), JSONAtoms: tierPick(tier, 1, 2), NumStride: tierPick(tier, 13, 2), Ctx: tierPick(tier, 3, 5), ScStride: tierPick(tier, 2, 1)}
-				full := tierPick(tier, 7, 10)
+				sc := docScope{Nodes: 3, UBJTypes: tierPick(tier, 4, 10), JSONTok: tierPick(tier, 3, 4), JSONAtoms: tierPick(tier, 1, 2), NumStride: tierPick(tier, 13, 2), Ctx: tierPick(tier, 3, 5), ScStride: tierPick(tier, 2, 2)}
+				full := tierPick(tier, 7, 9)
 				dev := tierPick(tier, 2, 3)
 				fams := allDocFamilies(sc, func(x *engine.Exec, c *DocCase) { c02Body(x, c, full, false) })
 				inv := allDocFamilies(docScope{Nodes: tierPick(tier, 2, 3), UBJTypes: 4, JSONTok: tierPick(tier, 2, 3), JSONAtoms: 1, NumStride: tierPick(tier, 80, 20), Ctx: tierPick(tier, 2, 4), ScStride: tierPick(tier, 6, 2)}, func(x *engine.Exec, c *DocCase) { c02Body(x, c, full, true) })
@@ -79,10 +79,8 @@ func init() {
 				}
 				// the boundary-literal family adds nothing for chunking; long special-length documents are not edited
 				fams = drop(fams, "json-int-boundaries")
-				inv = drop(inv, "cbor-deeper", "ubj-deeper", "json-deeper") // hundreds of bytes: edited variants add nothing over the edited 31-70 level documents
-				if tier != "thorough" {
-					fams = drop(fams, "ubj-noop-insertions")
-				}
+				inv = drop(inv, "cbor-deeper", "ubj-deeper", "json-deeper", "cbor-deep", "ubj-deep", "json-deep") // 100-1500 bytes: every edit x every cut of these costs 2e7 executions and repeats what the edited small documents show
+
 				inv = drop(inv, "json-int-boundaries", "ubj-marker-lengths", "cbor-break-lengths", "ubj-noop-insertions")
 				for i := range inv {
 					inv[i].Name += "-edited"
@@ -94,7 +92,7 @@ func init() {
 				return fams
 			},
 			Bounds: func(tier string) map[string]interface{} {
-				return map[string]interface{}{"all_cut_sets_up_to_bytes": tierPick(tier, 7, 10), "max_cuts_beyond": tierPick(tier, 2, 3)}
+				return map[string]interface{}{"all_cut_sets_up_to_bytes": tierPick(tier, 7, 9), "max_cuts_beyond": tierPick(tier, 2, 3)}
 			},
 			Require: []string{"schedules_compared", "invalid_verdicts_compared", "cut_inside_token"},
 		})
@@ -132,7 +130,8 @@ func c02Body(x *engine.Exec, c *DocCase, full int, edited bool) {
 	if edited {
 		chunks = chooseChunksLight(x, len(doc))
 		entry = 2 * x.Choose(2)
-	} else if (len(doc) > 64 && x.Tier != "thorough") || len(doc) > 200 {
+	} else if (len(doc) > 64 && x.Tier != "thorough") || len(doc) > 200 || c.Fam == "ubj-noop-insertions" {
+		// (also the 1.8e5 no-op insertions: whole, every single cut, single bytes - all cut sets would be 4e8 executions)
 		// long documents (deep nesting, marker-valued lengths): whole, every single cut, single bytes
 		chunks = chooseChunksLight(x, len(doc))
 		entry = x.Choose(4)
